@@ -6,7 +6,11 @@ exception handlers.  Three kinds of output:
   * small semantic translations (accessor expressions -> `AExp`, handler lists -> `List Exc`);
   * normalised source text (`ast.unparse`) of the statements the hand model was written from,
     compared literally by the bridge (any edit of those statements breaks the bridge and triggers
-    the failing-input search; a harmless rewrite then ends in `no-failing-input-found`).
+    the failing-input search; a harmless rewrite then ends in `no-failing-input-found`);
+  * (C10, round 2) the `__new__` dispatch of IntType/UintType/DoubleType/StringType/BytesType/BoolType
+    as Lean functions `Cls → text → statements executed` (`_Dispatch`): if/elif/else chains, nested ifs,
+    early returns, `and`/`or`/`not`, `isinstance` tuples and membership sets in any order all lead to
+    the same function; the bridge proves it equal to the pinned one for ALL classes and ALL texts.
 """
 from __future__ import annotations
 import ast
